@@ -447,7 +447,10 @@ impl Request {
                 self.target = target;
                 Ok((ParseStatusInternal::CompletePart, consumed))
             },
-            (None, Some(limit)) if raw_message.len() > limit => {
+            (None, Some(limit))
+                if raw_message.strip_suffix(b"\r").unwrap_or(raw_message).len()
+                    > limit =>
+            {
                 Err(Error::RequestLineTooLong(raw_message[..limit].to_vec()))
             },
             (None, _) => Ok((ParseStatusInternal::Incomplete, 0)),
